@@ -60,10 +60,16 @@ type nsOp struct {
 // Prepares the local namespace, and returns the namespace and a function for
 // executing the inner effectOp. Mutates fm.local.
 func (op nsOp) prepare(fm *Frame) (*Ns, func() Exception) {
-	if len(op.template.infos) > len(fm.local.infos) {
+	if len(op.template.infos) > len(fm.local.infos) || holdsDeletedVar(fm.local) {
 		n := len(op.template.infos)
 		newLocal := &Ns{make([]vars.Var, n), op.template.infos}
-		copy(newLocal.slots, fm.local.slots)
+		// Variables deleted by earlier code are not carried over; this is what
+		// releases them (see delLocalVarOp).
+		for i, info := range fm.local.infos {
+			if !info.deleted {
+				newLocal.slots[i] = fm.local.slots[i]
+			}
+		}
 		for i := len(fm.local.infos); i < n; i++ {
 			// TODO: Take readOnly into account too
 			newLocal.slots[i] = MakeVarFromName(newLocal.infos[i].name)
@@ -75,6 +81,16 @@ func (op nsOp) prepare(fm *Frame) (*Ns, func() Exception) {
 		fm.local = &Ns{fm.local.slots, op.template.infos}
 	}
 	return fm.local, func() Exception { return op.inner.exec(fm) }
+}
+
+// Reports whether ns still holds a variable that has been deleted.
+func holdsDeletedVar(ns *Ns) bool {
+	for i, info := range ns.infos {
+		if info.deleted && ns.slots[i] != nil {
+			return true
+		}
+	}
+	return false
 }
 
 type CompilationError = diag.Error[CompilationErrorTag]
